@@ -130,6 +130,18 @@ pub trait Property: Sync {
     fn single_threaded(&self) -> bool {
         false
     }
+    /// true when this tier enumerates the property's whole (finite) domain
+    fn exhaustive(&self, _tier: Tier) -> bool {
+        false
+    }
+    /// number of worker threads for sweeps and generation (default: all cores, at most 16)
+    fn worker_count(&self) -> usize {
+        if self.single_threaded() {
+            1
+        } else {
+            workers()
+        }
+    }
 }
 
 /// Results of non-case phases
@@ -455,7 +467,7 @@ pub fn run<P: Property>(p: &P, tier: Tier, seed: u64) -> RunResult {
             let next = std::sync::atomic::AtomicUsize::new(0);
             let stop = AtomicBool::new(false);
             let merged: Mutex<(Stats, Option<Failure>)> = Mutex::new((Stats::default(), None));
-            let w = if p.single_threaded() { 1 } else { workers() };
+            let w = p.worker_count();
             std::thread::scope(|s| {
                 for _ in 0..w {
                     s.spawn(|| {
@@ -493,7 +505,7 @@ pub fn run<P: Property>(p: &P, tier: Tier, seed: u64) -> RunResult {
     // 3. generated cases with shrinking
     let total_cases = p.cases(tier);
     if failure.is_none() && total_cases > 0 {
-        let w = if p.single_threaded() { 1 } else { workers().min(total_cases as usize).max(1) };
+        let w = p.worker_count().min(total_cases as usize).max(1);
         let per = (total_cases as usize + w - 1) / w;
         let stop = AtomicBool::new(false);
         let merged: Mutex<(Stats, Option<Failure>)> = Mutex::new((Stats::default(), None));
@@ -628,7 +640,7 @@ pub fn run<P: Property>(p: &P, tier: Tier, seed: u64) -> RunResult {
         "skipped": stats.skipped,
         "known_findings_hit": stats.known_hits,
         "notes": notes,
-        "exhaustive": false,
+        "exhaustive": p.exhaustive(tier),
     });
     for (k, v) in extra.notes {
         coverage[k] = v;
